@@ -45,7 +45,9 @@ var topos = []topo{
 
 type gcfg struct {
 	t0     int64
-	gcSec  int64
+	gcSec  int64 // effective
+	gcSet  bool
+	expSet []bool
 	early  bool
 	tp     topo
 	max    []int64 // per quota (conc only)
@@ -63,17 +65,25 @@ func (g gcfg) line() string {
 	for i, q := range g.tp.order {
 		ord[i] = fmt.Sprint(q)
 	}
-	fmt.Fprintf(&b, "cfg t0=%d gc=%d early=%d order=%s", g.t0, g.gcSec, e, strings.Join(ord, ","))
+	gcw := fmt.Sprint(g.gcSec)
+	if g.expSet != nil && !g.gcSet {
+		gcw = "-"
+	}
+	fmt.Fprintf(&b, "cfg t0=%d gc=%s early=%d order=%s", g.t0, gcw, e, strings.Join(ord, ","))
 	for i, q := range g.tp.quotas {
+		ex := fmt.Sprint(g.expSec[i])
+		if g.expSet != nil && !g.expSet[i] {
+			ex = "-"
+		}
 		switch {
 		case q == "f":
 			fmt.Fprintf(&b, " q%d=f", i)
 		case q[0] == 'f':
 			fmt.Fprintf(&b, " q%d=f,%s", i, q[1:])
 		case q == "c":
-			fmt.Fprintf(&b, " q%d=c,%d,%d,-", i, g.max[i], g.expSec[i])
+			fmt.Fprintf(&b, " q%d=c,%d,%s,-", i, g.max[i], ex)
 		default:
-			fmt.Fprintf(&b, " q%d=c,%d,%d,%s", i, g.max[i], g.expSec[i], q[1:])
+			fmt.Fprintf(&b, " q%d=c,%d,%s,%s", i, g.max[i], ex, q[1:])
 		}
 	}
 	for i, f := range g.flt {
@@ -94,6 +104,21 @@ func randCfg(r *prng.R, tp topo) gcfg {
 	for i := range tp.quotas {
 		g.max[i] = int64(prng.Pick(r, []int{1, 1, 2, 2, 3, 3, 4}))
 		g.expSec[i] = int64(r.Range(1, 3))
+	}
+	// request_expiration_sec / gc_interval_sec configured or left to the strategy's defaults (60 s / 30 s): all four
+	// combinations
+	if r.Chance(30) {
+		g.expSet = make([]bool, len(tp.quotas))
+		g.gcSet = r.Bool()
+		if !g.gcSet {
+			g.gcSec = defaultGCSec
+		}
+		for i := range tp.quotas {
+			g.expSet[i] = r.Bool()
+			if !g.expSet[i] {
+				g.expSec[i] = defaultExpSec
+			}
+		}
 	}
 	// quota filters narrower than / different from the flow's filter (host/*): one method only, one path only, a
 	// required request header
@@ -394,6 +419,65 @@ func exhaustive(emit func(proto.Case)) {
 	}
 }
 
+// request_expiration_sec and gc_interval_sec each configured (small value) or left out (the strategy's defaults, 60 s
+// and 30 s): the four combinations, on a plain concurrent quota and on a parent/child pair. Transactions that nobody
+// answers fill the quota; probes sit one GC instant before the effective expiry (still full), at the first GC instant
+// at or after it (freed), and one instant later.
+func defaultsFamily(emit func(proto.Case)) {
+	id := 0
+	for _, tp := range []topo{topos[0], topos[3]} {
+		for _, gcSet := range []bool{false, true} {
+			for _, expSet := range []bool{false, true} {
+				for _, gcs := range []int64{1, 2} {
+					for _, exs := range []int64{1, 3} {
+						if (!gcSet && gcs != 1) || (!expSet && exs != 1) {
+							continue
+						}
+						n := len(tp.quotas)
+						g := gcfg{t0: baseT0, gcSec: gcs, gcSet: gcSet, early: false, tp: tp, max: make([]int64, n),
+							expSec: make([]int64, n), expSet: make([]bool, n)}
+						if !gcSet {
+							g.gcSec = defaultGCSec
+						}
+						for i := range tp.quotas {
+							g.max[i], g.expSec[i], g.expSet[i] = 2, exs, expSet
+							if !expSet {
+								g.expSec[i] = defaultExpSec
+							}
+						}
+						h := &hist{g: g, now: g.t0}
+						h.ops = append(h.ops, g.line())
+						h.req(1, false)
+						h.req(2, false)
+						h.req(3, false) // full
+						var last int64
+						for _, e := range h.expiry {
+							if e > last {
+								last = e
+							}
+						}
+						step := g.gcSec * sec
+						k := (last - g.t0 + step - 1) / step // the first GC instant at or after the expiry
+						if k > 1 {
+							h.adv(g.t0 + (k-1)*step - h.now) // the GC instant before: nothing has expired
+							h.req(4, false)
+						}
+						h.adv(last - 1 - h.now) // one nanosecond before the expiry, no GC instant
+						h.req(5, false)
+						h.adv(g.t0 + k*step - h.now)
+						h.req(6, false)
+						h.resp(6)
+						h.adv(step)
+						h.req(7, false)
+						id++
+						emit(proto.Case{ID: fmt.Sprintf("dflt%d", id), Ops: h.ops})
+					}
+				}
+			}
+		}
+	}
+}
+
 func gen(r *prng.R, f proto.Flags, emit func(proto.Case)) {
 	n := 1500
 	if f.Tier == "thorough" {
@@ -424,6 +508,7 @@ func gen(r *prng.R, f proto.Flags, emit func(proto.Case)) {
 			emit(proto.Case{ID: fmt.Sprintf("crowd%d-%d", mx, gcs), Ops: h.ops})
 		}
 	}
+	defaultsFamily(emit)
 	genStress(emit, f.Tier == "thorough")
 	if f.Tier == "thorough" {
 		exhaustive(emit)
